@@ -151,6 +151,16 @@ impl Args {
                 style(test.path.to_string_lossy()).yellow()
             ));
 
+            #[cfg(feature = "verif")]
+            scrut::verif::emit(
+                "UpdDoc",
+                &format!(
+                    "\"path\":{:?},\"format\":\"{}\",\"n\":{}",
+                    test.path.to_string_lossy(),
+                    test.parser_type,
+                    test.testcases.len()
+                ),
+            );
             let config = test.config.with_overrides_from(&document_config);
             let shell_path = canonical_shell(config.shell.as_ref().map(|p| p as &Path))?;
 
@@ -163,6 +173,8 @@ impl Args {
             // must have test-cases to continue
             if test.testcases.is_empty() {
                 count_skipped += 1;
+                #[cfg(feature = "verif")]
+                scrut::verif::emit("UpdSkip", "\"reason\":\"notests\"");
                 pw.println(format!(
                     "⏩ {}: skipped, because no testcases were found in the document",
                     style(test.path.to_string_lossy()).blue()
@@ -173,6 +185,8 @@ impl Args {
             // TODO(config): Add support for updating prepended and appended files (or reason why not)
             if !config.prepend.is_empty() || !config.prepend.is_empty() {
                 count_skipped += 1;
+                #[cfg(feature = "verif")]
+                scrut::verif::emit("UpdSkip", "\"reason\":\"prepend\"");
                 pw.println(format!(
                     "⏩ {}: skipped, because 'prepend' or 'append' are currently not supported in update",
                     style(test.path.to_string_lossy()).blue()
@@ -220,6 +234,8 @@ impl Args {
                     // .. intentionally with skip, so skip
                     ExecutionError::Skipped(idx) => {
                         count_skipped += 1;
+                        #[cfg(feature = "verif")]
+                        scrut::verif::emit("UpdSkip", "\"reason\":\"skipcode\"");
                         pw.println(format!(
                             "⏩ {}: skipped, because testcase #{} ended in exit code {}",
                             style(test.path.to_string_lossy()).blue(),
@@ -270,6 +286,8 @@ impl Args {
                     // .. without changes -> next plz
                     if updated == test.content {
                         count_unchanged += 1;
+                        #[cfg(feature = "verif")]
+                        scrut::verif::emit("UpdUnchanged", "");
                         if self.verbose {
                             pw.println(format!(
                                 "👍 {}: keep as-is, no changes in document content",
@@ -301,6 +319,11 @@ impl Args {
 
                     // always ask, in case the file exists
                     if !self.assume_yes && Path::new(&output_path).exists() {
+                        #[cfg(feature = "verif")]
+                        scrut::verif::emit(
+                            "UpdAsk",
+                            &format!("\"target\":{:?}", output_path.to_string_lossy()),
+                        );
                         let confirmed = pw.suspend(|| {
                             confirm(
                                 &format!(
@@ -328,6 +351,21 @@ impl Args {
                     fs::write(&output_path, &updated).with_context(|| {
                         format!("overwrite existing document in {:?}", test.path)
                     })?;
+                    #[cfg(feature = "verif")]
+                    scrut::verif::emit(
+                        "UpdWrite",
+                        &format!(
+                            "\"target\":{:?},\"kind\":\"{}\"",
+                            output_path.to_string_lossy(),
+                            if is_conversion {
+                                "conv"
+                            } else if output_path == test.path {
+                                "orig"
+                            } else {
+                                "new"
+                            }
+                        ),
+                    );
                     if output_path == test.path {
                         pw.println(format!(
                             "✍️ {}: overwritten document with updated contents",
@@ -346,6 +384,14 @@ impl Args {
         pw.println("");
         pw.finish_and_clear();
 
+        #[cfg(feature = "verif")]
+        scrut::verif::emit(
+            "UpdSummary",
+            &format!(
+                "\"updated\":{},\"skipped\":{},\"unchanged\":{}",
+                count_updated, count_skipped, count_unchanged
+            ),
+        );
         self.print_summary(count_updated, count_skipped, count_unchanged)?;
 
         Ok(())
